@@ -300,11 +300,13 @@ impl Matrix {
             self.ncols = ncols as usize;
         } else if nrows < 0 {
             assert!(nrows == -1 && ncols > 0, "invalid number of rows");
+            assert_eq!(size % ncols as usize, 0, "invalid shape");
             // automatically determine number of rows
             self.ncols = ncols as usize;
             self.nrows = size / ncols as usize;
         } else if ncols < 0 {
             assert!(ncols == -1 && nrows > 0, "invalid number of columns");
+            assert_eq!(size % nrows as usize, 0, "invalid shape");
             // automatically determine number of columns
             self.nrows = nrows as usize;
             self.ncols = size / nrows as usize;
